@@ -37,6 +37,8 @@ class EvMonWorld(World):
 
     def gen_config(self, rng, prop):
         n = rng.choice([0, 1, 1, 2, 3, 4, 5, 8, 12, 17, 33])
+        if rng.chance(0.008):
+            n = rng.choice([129, 140, 258, 300])     # very large maps (few cycles are simulated)
         return {"srcs": [rng.choice(TRIGGERS) for _ in range(n)],
                 "trigger": rng.choice(TRIGGERS), "decoy": int(rng.chance(0.1)),
                 "omit": int(rng.chance(0.3))}
@@ -71,7 +73,7 @@ class EvMonWorld(World):
         p_lv = rng.choice([0.1, 0.3, 0.5, 0.9])
         p_clr = rng.choice([0.05, 0.3, 0.7])
         p_rst = rng.choice([0, 0, 0, 0.03])
-        for t in range(rng.range(40, 120)):
+        for t in range(rng.range(40, 120) if n < 100 else rng.range(8, 16)):
             lv = 0
             clr = 0
             for i in range(n):
